@@ -31,8 +31,9 @@ NextK ==
   \E t \in Threads :
     \/ th[t].lives < MaxLives /\ \E k \in GuardKinds : Begin(t, k)
     \/ ThreadStep(t)
+    \/ OtherExec(t) \/ OtherEnter(t, F)      \* threads that hold nothing may call the function (switch OthersCall)
 
-SpecK == Init /\ [][NextK]_vars /\ \A t \in Threads : WF_vars(ThreadStep(t))
+SpecK == Init /\ [][NextK]_vars /\ \A t \in Threads : WF_vars(ThreadStep(t)) /\ WF_vars(OtherExec(t))
 
 \* an injector at user level with a fake installed sees exactly its own fake
 OwnFakes == \A t \in Threads : (AtUser(t) /\ th[t].kind = "inj" /\ lock = t) =>
